@@ -10,7 +10,7 @@ from nflows.utils import torchutils
 PROPERTY = "C11"
 RULE = (
     "{NaiveLinear(orthogonal init / uniform init), LULinear(identity_init on/off), QRLinear, SVDLinear(identity_init on/off), HouseholderSequence} x features 1..6 (thorough: up to 12) x Householder "
-    "counts 1..2F+2 (odd, even, larger than the feature count) x parameter patterns {as constructed, pat1, pat3, patT (Householder vectors rescaled by 1e-4 / 1e4)} x dtype {float64, float32}. One case = one constructed transform with all "
+    "counts 1..2F+2 (odd, even, larger than the feature count) x parameter patterns {as constructed, pat1, pat3, patT (Householder vectors rescaled by 1e-4 / 1e4), patG (NaiveLinear: the pattern map times 1e7 / 1e-8, float64 1e60 / 1e-60)} x dtype {float64, float32}. One case = one constructed transform with all "
     "accessor identities checked on a 3-row batch. Non-trivial = features >= 2 or a Householder count other than 2."
 )
 ASSUMPTIONS = [
@@ -95,7 +95,7 @@ def check_case(c, pname, dname, seed):
         V("constructor raises %s" % type(e).__name__, "%s(%d, %s) raised %s: %s" % (cls, F, c["opt"], type(e).__name__, str(e)[:120]))
         return out
     if pname != "init":
-        fill(m, ("pat", {"pat1": 0, "pat3": 1, "patT": 0}[pname] + 2 * (seed % 3), {"pat1": 1.0, "pat3": 3.0, "patT": 1.0}[pname]))
+        fill(m, ("pat", {"pat1": 0, "pat3": 1, "patT": 0, "patG": 0}[pname] + 2 * (seed % 3), {"pat1": 1.0, "pat3": 3.0, "patT": 1.0, "patG": 1.0}[pname]))
         if pname == "patT":
             # reflections are invariant under rescaling of their vectors: tiny (and huge) vectors must give the same orthogonal map
             with torch.no_grad():
@@ -108,6 +108,14 @@ def check_case(c, pname, dname, seed):
             with torch.no_grad():
                 m._weight.add_(2.0 * torch.eye(F))
     m = m.to(dtype).eval()
+    if pname == "patG":
+        # the same well-conditioned map times a global factor (weight and bias): det W leaves the dtype's range for F >= 6 while
+        # log|det W| and the map itself are harmless
+        big = (seed + F) % 2 == 0
+        g = (1e7 if big else 1e-8) if dtype == torch.float32 else (1e60 if big else 1e-60)
+        with torch.no_grad():
+            m._weight.mul_(g)
+            m.bias.mul_(g)
     for n, p in m.named_parameters():
         if not torch.isfinite(p).all():
             V("non-finite parameter after construction", "%s(%d, %s): parameter %s contains %s" % (cls, F, c["opt"], n, p.flatten().tolist()[:6]))
@@ -193,7 +201,7 @@ def run_unit(unit):
     cs, seed = unit
     res = new_result()
     for c in cs:
-        pats = ("init",) if c["cls"] == "random_orthogonal" else (("init", "pat1", "pat3", "patT") if "householder" in c["opt"] else ("init", "pat1", "pat3"))
+        pats = ("init",) if c["cls"] == "random_orthogonal" else (("init", "pat1", "pat3", "patT") if "householder" in c["opt"] else (("init", "pat1", "pat3", "patG") if c["cls"] == "NaiveLinear" else ("init", "pat1", "pat3")))
         for pname in pats:
             for dname in DT:
                 vs = check_case(c, pname, dname, seed)
